@@ -200,3 +200,143 @@ func HarnessC04_tables() {
 	s := StrictPolicy()
 	verifAssert(len(s.elsAndAttrs) == 0 && len(s.elsMatchingAndAttrs) == 0 && len(s.globalAttrs) == 0 && !s.allowComments && !s.allowUnsafe, "C04-strict-empty")
 }
+
+// ---- C20: re-sanitising is a no-op ---------------------------------------------------
+
+func attrsSame(a, b []html.Attribute) bool {
+	if len(a) != len(b) {
+		return false
+	}
+	ok := true
+	for i := range a {
+		ok = verifAnd(ok, verifAnd(a[i].Key == b[i].Key, a[i].Val == b[i].Val))
+	}
+	return ok
+}
+
+// summaryValidURL replaces validURL in the twice-applied harnesses by the
+// functional summary (normal form, verdict) whose stability under a second
+// application is what HarnessC20_validURL establishes on the real code.
+func summaryValidURL(p *Policy, rawurl string) (string, bool) {
+	ok := verifValidURLOk(rawurl)
+	if ok {
+		return verifValidURLOut(rawurl), true
+	}
+	return "", false
+}
+
+// HarnessC20_validURL: a value accepted by the real validURL is accepted
+// again, unchanged (policies without custom checks).
+func HarnessC20_validURL() {
+	p := &Policy{}
+	p.init()
+	p.RequireParseableURLs(true)
+	p.allowRelativeURLs = nondetBool("p.allowRelative")
+	sch := nondetString("p.scheme")
+	verifAssume(verifMatch(`^[^A-Z]*$`, sch))
+	p.allowURLSchemes[sch] = nil
+	if nondetIntRange("p.hasSchemeRe", 0, 1) == 1 {
+		p.allowURLSchemeRegexps = append(p.allowURLSchemeRegexps, nondetRegexp("p.schemere"))
+	}
+	raw := nondetString("raw")
+	tv := strings.TrimSpace(raw)
+	verifAssume(verifNot(verifOr(verifOr(strings.Contains(tv, " "), strings.Contains(tv, "\t")), strings.Contains(tv, "\n"))))
+	verifNote("raw", raw)
+	u, ok := p.validURL(raw)
+	if !ok {
+		return
+	}
+	verifReach("C20-validURL-accepts")
+	verifAssert(u == verifURLNorm(tv), "C20-validURL-returns-normal-form")
+	u2, ok2 := p.validURL(u)
+	verifAssert(verifAnd(ok2, u2 == u), "C20-validURL-stable")
+}
+
+// HarnessC20_attrs: sanitizeAttrs is idempotent for policies of the
+// statement's class (no value pattern on the attributes the sanitiser
+// rewrites, no src rewriter).
+func HarnessC20_attrs() {
+	p := &Policy{}
+	p.init()
+	opts := c20Options[nondetIntRange("optsIdx", 0, len(c20Options)-1)]
+	verifNoteInt("opts", opts)
+	p.RequireNoFollowOnLinks(opts&1 != 0)
+	p.RequireNoFollowOnFullyQualifiedLinks(opts&2 != 0)
+	p.RequireNoReferrerOnLinks(opts&4 != 0)
+	p.RequireNoReferrerOnFullyQualifiedLinks(opts&8 != 0)
+	p.AddTargetBlankToFullyQualifiedLinks(opts&16 != 0)
+	p.RequireCrossOriginAnonymous(opts&32 != 0)
+	p.RequireParseableURLs(true)
+	allowGlobally(p, "href", "src", "cite", "rel", "target", "crossorigin", "other")
+	els := []string{"a", "link", "img", "q"}
+	keysOf := [][]string{{"href", "rel", "target"}, {"href", "rel", "crossorigin"}, {"src", "crossorigin"}, {"cite", "other"}}
+	ei := nondetIntRange("el", 0, len(els)-1)
+	el := els[ei]
+	n := nondetIntRange("in.n", 1, verifParam("maxAttrs"))
+	var in []html.Attribute
+	for i := 0; i < n; i++ {
+		k := keysOf[ei][nondetIntRange("in.key", 0, len(keysOf[ei])-1)]
+		in = append(in, html.Attribute{Key: k, Val: nondetString("in.val")})
+	}
+	noteAttrs("in", in)
+	verifNote("el", el)
+	out1 := p.sanitizeAttrs(el, in, p.elsAndAttrs[el])
+	noteAttrs("out1", out1)
+	out2 := p.sanitizeAttrs(el, out1, p.elsAndAttrs[el])
+	noteAttrs("out2", out2)
+	verifReach("C20-reach")
+	verifAssert(attrsSame(out1, out2), "C20-sanitizeAttrs-idempotent")
+}
+
+var c20Options = []int{0, 5, 31, 32, 63}
+
+// HarnessC20_sandbox: the sandbox filter is idempotent.
+func HarnessC20_sandbox() {
+	p := &Policy{}
+	p.init()
+	p.requireSandboxOnIFrame = map[string]bool{}
+	for _, t := range sandboxTokens {
+		p.requireSandboxOnIFrame[t] = nondetBool("sb." + t)
+	}
+	allowGlobally(p, "sandbox", "other")
+	n := nondetIntRange("in.n", 1, 2)
+	in := symAttrs(n, "sandbox", "other")
+	noteAttrs("in", in)
+	verifNote("el", "iframe")
+	out1 := p.sanitizeAttrs("iframe", in, p.elsAndAttrs["iframe"])
+	noteAttrs("out1", out1)
+	out2 := p.sanitizeAttrs("iframe", out1, p.elsAndAttrs["iframe"])
+	noteAttrs("out2", out2)
+	verifReach("C20-reach")
+	verifAssert(attrsSame(out1, out2), "C20-sandbox-filter-idempotent")
+}
+
+// HarnessC20_ugc: the same under the real UGCPolicy, for every vocabulary
+// element other than del/ins.
+func HarnessC20_ugc() {
+	p := UGCPolicy()
+	var names []string
+	for _, n := range sortedVocabulary() {
+		if n != "del" && n != "ins" {
+			names = append(names, n)
+		}
+	}
+	el := names[nondetIntRange("el", 0, len(names)-1)]
+	verifNote("el", el)
+	key := nondetString("in.key")
+	verifAssume(verifMatch(`^[^\s/>=A-Z\x00]+$`, key))
+	val := nondetString("in.val")
+	tv := strings.TrimSpace(val)
+	verifAssume(verifNot(verifOr(verifOr(strings.Contains(tv, " "), strings.Contains(tv, "\t")), strings.Contains(tv, "\n"))))
+	in := []html.Attribute{{Key: key, Val: val}}
+	noteAttrs("in", in)
+	out1 := p.sanitizeAttrs(el, in, p.elsAndAttrs[el])
+	noteAttrs("out1", out1)
+	out2 := out1
+	if len(out1) > 0 {
+		out2 = p.sanitizeAttrs(el, out1, p.elsAndAttrs[el])
+	}
+	noteAttrs("out2", out2)
+	verifReach("C20-ugc-reach")
+	verifAssert(attrsSame(out1, out2), "C20-ugc-sanitizeAttrs-idempotent")
+}
